@@ -461,3 +461,68 @@ Proof.
   - destruct (env_load cores env); reflexivity.
   - destruct (file_load cores (fs arg)); reflexivity.
 Qed.
+
+(* ------------------------------------------------------------------ the seed line *)
+Lemma lookup_seed_name : forall name, lookup_key fkey_table name = Some (FOther SSeed) -> name = t_seed.
+Proof.
+  intros name. cbn [lookup_key fkey_table].
+  repeat match goal with
+         | |- context [if bytes_eqb name ?b then _ else _] =>
+             let E := fresh "E" in
+             destruct (bytes_eqb name b) eqn:E;
+             [ apply bytes_eqb_eq in E; intros H; try discriminate H; exact E | ]
+         end.
+  discriminate.
+Qed.
+
+Lemma lookup_seed : lookup_key fkey_table t_seed = Some (FOther SSeed).
+Proof. vm_compute. reflexivity. Qed.
+
+Lemma lc_seed_set : forall k z c, lc_seed (lc_set k z c) = lc_seed c.
+Proof. intros [] z c; reflexivity. Qed.
+
+Lemma file_step_seed : forall c name v c', file_step c (YStr name, v) = Ok c' ->
+  if bytes_eqb name t_seed
+  then exists s, v = YStr s /\ hex_decode s = Some (lc_seed c')
+  else lc_seed c' = lc_seed c.
+Proof.
+  intros c name v c' H. unfold file_step in H. cbn [fst snd file_str obind] in H.
+  destruct (bytes_eqb name t_seed) eqn:E.
+  - apply bytes_eqb_eq in E. subst name. rewrite lookup_seed in H.
+    destruct v as [z|s|]; cbn [file_str obind] in H; try discriminate H.
+    destruct (hex_decode s) as [b|] eqn:Eh; [|discriminate H]. injection H as <-.
+    exists s. split; [reflexivity|exact Eh].
+  - destruct (lookup_key fkey_table name) as [[k0|sk]|] eqn:L; [| |discriminate H].
+    + destruct (file_int (file_tmax k0) v); cbn [obind] in H; try discriminate H.
+      injection H as <-. apply lc_seed_set.
+    + destruct sk; cbn [obind] in H.
+      * destruct (file_str v); cbn [obind] in H; try discriminate H. injection H as <-. reflexivity.
+      * apply lookup_seed_name in L. subst name. rewrite bytes_eqb_refl in E. discriminate.
+      * destruct (file_str v); cbn [obind] in H; try discriminate H.
+        destruct (unwrap_c site_gen (kms_from_str a)); cbn [obind] in H; try discriminate H.
+        injection H as <-. reflexivity.
+      * destruct (file_str v); cbn [obind] in H; try discriminate H. injection H as <-. reflexivity.
+      * injection H as <-. reflexivity.
+Qed.
+
+(* the seed the loaded configuration holds is the hex decoding of the LAST seed line of the file *)
+Theorem gen_file_seed : forall cores entries f c,
+  gen_file_config_new cores (Ok [DHash entries]) f = Ok c ->
+  match last_written entries t_seed with
+  | Some v => exists s, v = YStr s /\ hex_decode s = Some (lc_seed c)
+  | None => lc_seed c = []
+  end.
+Proof.
+  intros cores entries f c H. rewrite gen_file_config_new_model in H. cbn [file_load obind] in H.
+  change [] with (lc_seed (lc_default cores)). revert H. generalize (lc_default cores).
+  induction entries as [|[ky v] r IH]; intros c0 H; cbn [fold_out] in H.
+  - injection H as <-. reflexivity.
+  - destruct (file_step c0 (ky, v)) as [c1|e|p] eqn:E1; cbn [obind] in H; try discriminate H.
+    specialize (IH c1 H). cbn [last_written].
+    destruct (last_written r t_seed) as [v'|]; [exact IH|].
+    destruct (file_step_key_is_string _ _ _ E1) as [name Hn]. cbn [fst] in Hn. subst ky.
+    pose proof (file_step_seed _ _ _ _ E1) as Hs.
+    destruct (bytes_eqb name t_seed).
+    + destruct Hs as (s & -> & Hd). exists s. split; [reflexivity|]. rewrite Hd. f_equal. symmetry. exact IH.
+    + congruence.
+Qed.
